@@ -12,6 +12,13 @@ import (
 
 	"verif/core"
 	_ "verif/props/c04"
+	_ "verif/props/c07"
+	_ "verif/props/c08"
+	_ "verif/props/c11"
+	_ "verif/props/c14"
+	_ "verif/props/c16"
+	_ "verif/props/c19"
+	_ "verif/props/c20"
 	"verif/props/chainprops"
 )
 
